@@ -231,6 +231,13 @@ func (fc *FuncCtx) ap0(v ssa.Value) string {
 	case *ssa.Parameter, *ssa.FreeVar:
 		return fc.rootName(v)
 	case *ssa.Alloc:
+		// a local that only ever receives one whole-value store (range element copy, loop variable copy)
+		// is named by the value stored into it
+		if sv := wholeStore(x); sv != nil {
+			if _, isConst := sv.(*ssa.Const); !isConst {
+				return fc.AP(sv)
+			}
+		}
 		return fc.rootName(v)
 	case *ssa.Global:
 		pk := ""
@@ -490,4 +497,40 @@ func Resolve(v ssa.Value) ssa.Value {
 		v = sv
 	}
 	return v
+}
+
+// wholeStore: the local has exactly one Store instruction targeting the whole variable, and its
+// address is otherwise only used for field access / loads (it is not passed to a call or stored).
+func wholeStore(al *ssa.Alloc) ssa.Value {
+	var st *ssa.Store
+	for _, r := range *al.Referrers() {
+		switch y := r.(type) {
+		case *ssa.Store:
+			if y.Addr != ssa.Value(al) {
+				return nil // address stored somewhere
+			}
+			if st != nil {
+				return nil
+			}
+			st = y
+		case *ssa.UnOp, *ssa.DebugRef, *ssa.FieldAddr, *ssa.IndexAddr:
+		case *ssa.Call:
+			// receiver of a pure getter (a by-value parameter spilled because the method has a pointer receiver)
+			sc := y.Call.StaticCallee()
+			if sc == nil || sc.Signature.Recv() == nil || !pureMethodNames[sc.Name()] || len(y.Call.Args) == 0 || y.Call.Args[0] != ssa.Value(al) {
+				return nil
+			}
+			for _, a := range y.Call.Args[1:] {
+				if a == ssa.Value(al) {
+					return nil
+				}
+			}
+		default:
+			return nil
+		}
+	}
+	if st == nil {
+		return nil
+	}
+	return st.Val
 }
